@@ -898,6 +898,17 @@ class SharesManager(BaseManager):
             self._term_map[term].add(item)
 
     def _cleanup_term_map(self):
+        """Removes the items which are no longer part of a shared directory
+        and the terms that are left without items
+        """
+        shared_items: set[SharedItem] = set()
+        for shared_directory in self._shared_directories:
+            shared_items |= shared_directory.items
+
+        for values in self._term_map.values():
+            values.difference_update(
+                [item for item in values if item not in shared_items])
+
         self._term_map = {
             term: values for term, values in self._term_map.items()
             if len(values) > 0
